@@ -19,6 +19,7 @@ import (
 	"golang.org/x/perf/benchfmt"
 	"golang.org/x/perf/benchmath"
 	"golang.org/x/perf/benchproc"
+	"golang.org/x/perf/internal/verifhook"
 )
 
 // TODO: Color by good/bad (or nothing for unknown units)
@@ -202,7 +203,9 @@ func (b *Builder) ToTables(opts TableOpts) *Tables {
 			limit <- struct{}{}
 			cCell := cCell
 			go func() {
+				verifhook.Point("benchtab.cell.begin")
 				summarizeCell(cCell, cell, assumption, opts.Confidence)
+				verifhook.Point("benchtab.cell.end")
 				<-limit
 				wg.Done()
 			}()
@@ -235,7 +238,9 @@ func (b *Builder) ToTables(opts TableOpts) *Tables {
 			table, col := table, col
 			wg.Add(1)
 			go func() {
+				verifhook.Point("benchtab.col.begin")
 				summarizeCol(table, col, &s, nBase, isBase)
+				verifhook.Point("benchtab.col.end")
 				<-limit
 				wg.Done()
 			}()
